@@ -6,6 +6,7 @@ import StyluaModel.Lemmas.Trivia
 import StyluaModel.Lemmas.SortReq
 import StyluaModel.Lemmas.Eof
 import StyluaModel.Lemmas.Semi
+import StyluaModel.Lemmas.HangOp
 
 namespace StyluaModel.C03
 open StyluaModel.Trivia StyluaModel.TriviaLemmas StyluaModel.StrLit
@@ -111,6 +112,54 @@ theorem C03_semi_swallow_witness :
       [.ws false, .comment (.block 0) ['b'], .ws true])
     out = [Out.space, Out.comment .line ['a'], Out.space, Out.comment (.block 0) ['b'], Out.newline] ∧
     lineSafe out = false := by decide
+
+/-! ## a binary operator pushed onto a new line (hang_binop) -/
+
+open StyluaModel.HangOp in
+/-- **hang_binop**: the comments in front of the operator, behind it, and in front of its right operand all end
+up in the operator's new leading trivia - each once, in that order, text untouched; the new trailing trivia holds
+none - for trivia lists of any length -/
+theorem C03_hang_binop (opLead opTrail rhsLead : List Triv) :
+    commentsOut (hangBinop opLead opTrail rhsLead).1 = commentsIn opLead ++ commentsIn opTrail ++ commentsIn rhsLead ∧
+    commentsOut (hangBinop opLead opTrail rhsLead).2 = [] :=
+  HangOpLemmas.hang_comments opLead opTrail rhsLead
+
+open StyluaModel.HangOp StyluaModel.Semi in
+/-- ... but the operator's trailing comments are appended on the line of its last leading comment: behind a
+*line* comment they become part of it in the printed text (`a⏎-- x⏎+ -- y⏎b` comes out as `a⏎-- x -- y⏎+ b`;
+reproduced on the binary; D23 family) -/
+theorem C03_hang_binop_fuses_witness :
+    let lead := (hangBinop [.comment .line ['x'], .ws true] [.ws false, .comment .line ['y']] []).1
+    lead = [Out.newline, Out.indent, Out.comment .line ['x'], Out.space, Out.comment .line ['y'], Out.newline, Out.indent] ∧
+    lineSafe lead = false := by decide
+
+/-! ## a named table field: comments around the key and the equals sign -/
+
+open StyluaModel.FieldKey in
+/-- **handle_field_key_equals_comments, bracketed key** (`["k"] = v`): the comments in front of the key, behind it,
+and on either side of `=` all end up in front of the key, once and in that order (those of the key with the text
+format_token gives them, those of `=` untouched) - for trivia lists of any length; `=` itself is replaced by a
+fresh token without trivia -/
+theorem C03_field_key (eol : List Char) (multiline : Bool) (kl kt el et : List Triv) :
+    commentsOut (keyLeading eol multiline false kl kt el et) =
+      SemiLemmas.norm eol (commentsIn kl) ++ SemiLemmas.norm eol (commentsIn kt) ++ commentsIn el ++ commentsIn et := by
+  simpa using FieldKeyLemmas.key_comments eol multiline false kl kt el et
+
+open StyluaModel.FieldKey in
+/-- **... name key** (`k = v`), the statement that holds of the code: everything except the comments *behind the
+key* is carried over -/
+theorem C03_field_key_name_partial (eol : List Char) (multiline : Bool) (kl kt el et : List Triv) :
+    commentsOut (keyLeading eol multiline true kl kt el et) =
+      SemiLemmas.norm eol (commentsIn kl) ++ commentsIn el ++ commentsIn et := by
+  simpa using FieldKeyLemmas.key_comments eol multiline true kl kt el et
+
+open StyluaModel.FieldKey in
+/-- the full statement is false for a name key: `{ k --[[c]] = 1 }` loses `c` (D29, reproduced on the binary; the
+mechanism - `Node::surrounding_trivia` on a one-token node - was found when the `fieldkey` correspondence
+disagreed with the first version of this model) -/
+theorem C03_field_key_name_loses_key_trailing :
+    commentsOut (keyLeading ['\n'] true true [] [.ws false, .comment (.block 0) ['c'], .ws false] [] []) = [] := by
+  decide
 
 /-! ## non-vacuity -/
 example : commentsOut (load ['\n'] .leading
